@@ -269,7 +269,7 @@ func (g *engine) runOne(sc Scenario) bool {
 	if sc.Name == "follow" {
 		// the follower publishes into the output tree concurrently with sync/upload operations on the
 		// local and replica trees: judge the two projections separately (the rules never relate them)
-		isOut := func(op string) bool { return op == "follow" || strings.HasPrefix(op, "restore") }
+		isOut := func(op string) bool { return strings.HasPrefix(op, "follow") || strings.HasPrefix(op, "restore") }
 		parts = [][]fstrace.Event{
 			fstrace.Project(tr.Events, map[int]bool{0: true, 1: true}, func(op string) bool { return !isOut(op) }),
 			fstrace.Project(tr.Events, map[int]bool{2: true}, isOut)}
@@ -338,7 +338,14 @@ func (g *engine) static() {
 				map[string]any{"static": true, "protocol": p})
 		}
 		if rule != "" {
-			fn := p.Name[strings.LastIndex(p.Name, ".")+1:]
+			base := p.Name
+			if i := strings.IndexAny(base, "[+"); i >= 0 {
+				base = base[:i]
+			}
+			fn := base[strings.LastIndex(base, ".")+1:]
+			if base != p.Name { // a path variant (alternative exit / spliced callee) of the function
+				fn += "-variant"
+			}
 			sig := "C11/" + fn + "-" + rule
 			if rule == "ack-before-dirsync" {
 				sig = "C11/" + fn + "-no-dir-fsync"
@@ -352,7 +359,7 @@ func (g *engine) static() {
 
 func scenarios(o *hx.Opts) []Scenario {
 	r := hx.NewRand(o.Seed)
-	names := []string{"basic", "compact", "restore", "follow", "behind", "reopen", "restorev3", "pinned", "ckptbusy"}
+	names := []string{"basic", "compact", "restore", "follow", "behind", "reopen", "restorev3", "pinned", "ckptbusy", "restoreside"}
 	var out []Scenario
 	reps := 1
 	if o.Tier == "thorough" {
@@ -372,7 +379,7 @@ func main() {
 	}
 	o := hx.ParseFlags("C11")
 	res := hx.NewResult(o, "c11: strace'd litestream scenarios judged by Lean flushOK + Go rule oracle; static publish protocols")
-	res.Rule = "scenarios {basic, compact(+snapshot, retention), restore, follow(+txid sidecar), behind (baseline fetch, F8), reopen, restorev3 (legacy layout), pinned (checkpoints that cannot restart the WAL because of an application reader: explicit PASSIVE/FULL/RESTART/TRUNCATE and the threshold PASSIVE inside Sync), ckptbusy (checkpoints under concurrent commits)} x seeded sizes, each run once under strace -f -y; the full system-call trace restricted to the meta/replica/output trees is one case (non-trivial = at least one event; distinct = canonical event line); each regenerated static protocol is one case; crash points around every rename/unlink/ack are replayed in the model"
+	res.Rule = "scenarios {basic, compact(+snapshot, retention), restore, follow(+txid sidecar), behind (baseline fetch, F8), reopen, restorev3 (legacy layout), pinned (checkpoints that cannot restart the WAL because of an application reader: explicit PASSIVE/FULL/RESTART/TRUNCATE and the threshold PASSIVE inside Sync), ckptbusy (checkpoints under concurrent commits), restoreside (plain and follow-mode restore x {no sidecar, stale older sidecar, stale sidecar naming exactly the final TXID, stale -txid.tmp}; a follow-mode restore acknowledges when follow() opens the published output O_RDWR and again when Restore returns)} x seeded sizes, each run once under strace -f -y; the full system-call trace restricted to the meta/replica/output trees is one case (non-trivial = at least one event; distinct = canonical event line); each regenerated static protocol is one case; crash points around every rename/unlink/ack are replayed in the model"
 	drv, err := hx.StartDriver(o.Driver)
 	if err != nil {
 		hx.Fatal(err)
